@@ -205,6 +205,12 @@ class IndicatorInterp(Interp):
 
     def slice(self, st, base, lo, hi, node):
         if isinstance(base, Obj) and base.kind == "candles":
+            if isinstance(lo, Num) and isinstance(hi, Num) and getattr(node.slice, "step", None) is None:
+                # self.candles[lo:hi] as the window of candles at positions lo .. hi-1 (the rules demand lo >= 0, hi - 1 <= t and a
+                # length bounded by the configuration; a window they reject is reported there)
+                var = poly.fresh_bv()
+                st.site("candles-window", node, lo=lo.f, hi=hi.f)
+                return SeqV(var, hi.f - lo.f, Obj("candle", lo.f + Frac.atom(var)), None)
             st.site("candles-slice", node, lo=lo, hi=hi)
         return Opaque("slice")
 
@@ -413,6 +419,11 @@ class IndicatorInterp(Interp):
                 st.site("read", node, name=nm, pos=at, how="candles_sum", guarded=False, top=True)
                 st.site("loop", node, count=ln.f, what="candles_sum")
                 return Num(mk_sum(var, ln.f, mk_rd(nm, at - Frac.atom(var))))
+        if from_base and meth == "read_candle":
+            b = self.bind(m.node, node, st)
+            c = b.get("candle")
+            if isinstance(c, Obj) and c.kind == "candle" and isinstance(c.data, Frac):
+                return self.read(st, self._name_arg(b.get("name")), c.data, node, "read_candle", False)
         if from_base:
             st.site("base-call", node, method=meth, func=m)
             for a in node.args:
